@@ -9,7 +9,8 @@
   the input's morphism under every rigid functor (monoidal functor + snake equations for the
   images of cups/caps) into every partial strict monoidal algebra; only pairs satisfying a snake
   equation are removed by a yank step (`yank_step_is_snake`); `find_snake` is complete over all
-  caps and both legs (so when the first loop stops no yankable pair is left).
+  caps and both legs (so when the first loop stops no yankable pair is left); `follow_wire` returns
+  the consumer of the wire it follows (`follow_wire_spec`, against independent producer labels).
   NOT proved (kept as `Prop`s no theorem claims; exercised by the functional comparison of the
   code's trace with the model's transcription on every run):
     * `unsnake_indices_invariant` — the model's transcription of `unsnake`, with its index
@@ -17,6 +18,7 @@
     * termination (inherits C06's gap for the final `normalize`).
 -/
 import Proofs.Snake
+import Proofs.FollowWire
 
 namespace DV.C07
 open DV
@@ -55,6 +57,18 @@ theorem find_snake_complete (d : Diagram) (h : d.findSnake = none) :
       b.kind = .cap → tryYank d cap b off true = none ∧ tryYank d cap b off false = none :=
   fun cap b off hc hb ho hk =>
     findSnakeFrom_none h cap b off (Nat.zero_le _) (by omega) hb ho hk
+
+/-- `follow_wire` (rewriting.py:350-371) is correct against an independent labelling of every
+    wire by its producer (`Diagram.labels`): it returns the box that consumes the very wire it was
+    asked to follow, at a position inside that box's input span — or `len(d)` and the wire's
+    position in the codomain.  This is what makes `find_snake`'s positional test mean "the cap's
+    leg runs straight into that leg of the cup". -/
+theorem follow_wire_spec (d : Diagram) (hd : d.WF) (i j : Nat) (hi : i < d.boxes.length) :
+    ∃ c j' : Nat, (d.followWire i (j : Int)).1 = c ∧ (d.followWire i (j : Int)).2.1 = (j' : Int) ∧
+      (d.labels c)[j']? = (d.labels (i+1))[j]? ∧ i < c ∧ c ≤ d.boxes.length ∧
+      (c < d.boxes.length → ∃ l, d.layers.boxes[c]? = some l ∧
+        l.left.length ≤ j' ∧ j' < l.left.length + l.box.dom.length) :=
+  Diagram.followWire_spec hd i j hi
 
 /-- NOT PROVED. -/
 def unsnake_indices_invariant : Prop :=
